@@ -58,4 +58,23 @@ theorem linked_of_splits {r : Bag} : ∀ (ls : List InvLayer),
   | a :: b :: rest, h => ⟨h [] a b rest rfl, linked_of_splits (b :: rest) fun pre a' b' post he =>
       h (a :: pre) a' b' post (by rw [he]; rfl)⟩
 
+theorem chain_reverse_eq {p c : BCtx} {outs : List BNode} {next : Nat} {o1 : List BNode} {e1 : List BEdge} {p1 : List BNode} {n1 : Nat}
+    {o2 : List BNode} {e2 : List BEdge} {p2 : List BNode} {n2 : Nat} (h1 : c.reverse outs next = .ok (o1, e1, p1, n1))
+    (h2 : p.reverse o1 n1 = .ok (o2, e2, p2, n2)) : (BCtx.chain p c).reverse outs next = .ok (o2, e1 ++ e2, p1 ++ p2, n2) := by
+  simp only [BCtx.reverse, bind, Except.bind, h1, h2]
+
+theorem chainOuts_inv : ∀ (ls : List InvLayer) (l0 : InvLayer) (outs : List BNode),
+    chainOuts ((l0 :: ls).map InvLayer.ctx) outs = [lastOut l0 ls]
+  | [], _, _ => rfl
+  | l1 :: ls, l0, _ => by
+    have ih := chainOuts_inv ls l1 l0.ctx.bo
+    simpa [chainOuts, lastOut] using ih
+
+theorem lastOut_mem : ∀ (ls : List InvLayer) (l0 : InvLayer), lastOut l0 ls ∈ (l0 :: ls).map (·.o)
+  | [], l0 => by simp [lastOut]
+  | l1 :: ls, l0 => by
+    have := lastOut_mem ls l1
+    simp only [lastOut, List.map_cons, List.mem_cons] at this ⊢
+    exact Or.inr this
+
 end CM
